@@ -53,14 +53,68 @@ class Ctx:
         return self._ix
 
     @property
+    def full_pta(self):
+        """Points-to relation of the whole library, state-restoring entry points included."""
+        if getattr(self, '_full_pta', None) is None:
+            from .pta import PTA
+            self._full_pta = PTA(self.ix)
+        return self._full_pta
+
+    @property
     def pta(self):
+        """Points-to relation the search rules work on: the library without the routines that only a state-restoring
+        entry point (Solver.LoadProgress ...) reaches.  Such routines re-create the search state from a file by
+        design; what they write is not what the search writes, and the opaque values they decode would blur every
+        points-to set of the search.  The rules that are decidable for them run on full_view()."""
         if self._pta is None:
             from .pta import PTA
-            self._pta = PTA(self.ix)
+            from .roles import Roles
+            full = self.full_pta
+            try:
+                r_full = Roles(self.ix, full)
+                skip = set(r_full.restore_only())
+                # the named operations of the containers / the evolvent / the value classes stay in (GetCount,
+                # iteration, queue operations ...: the properties speak about them whoever calls them); only the
+                # persistence operations themselves are state-restoring
+                named = ('InsertDataItem', 'InsertFirstDataItem', 'FindDataItemByOneDimensionalPoint',
+                         'GetDataItemWithMaxGlobalR', 'GetDataItemWithMaxLocalR', 'RefillQueue', 'ClearQueue',
+                         'GetCount', 'GetLastItem', '__iter__', '__next__')
+                keep = set()
+                for q in skip:
+                    f = self.ix.funcs.get(q.replace('@setter', ''))
+                    if f is None or f.cls is None:
+                        continue
+                    if f.cls.name.startswith('SearchData') and f.cls.name != 'SearchDataItem' and f.name in named:
+                        keep.add(q)
+                    elif f.cls.name == 'Evolvent' and not f.name.startswith('_'):
+                        keep.add(q)
+                skip -= keep
+            except Exception:
+                skip = set()
+            if skip:
+                self._pta = PTA(self.ix, skip=skip)
+                self.restore_only_skipped = sorted(skip)
+                self.notes.append('state-restoring routines (reached only from Solver entry points outside the solving '
+                                  'API) are analysed by the restore rules only, not by the search rules: ' +
+                                  ', '.join(sorted(q.split(':')[-1] for q in skip)[:12]))
+            else:
+                self._pta = full
+                self.restore_only_skipped = []
             self.analysed['points_to'] = self._pta.stats()
             if self._pta.unsupported:
                 self.notes.append('unsupported constructs: ' + '; '.join(self._pta.unsupported[:5]))
         return self._pta
+
+    def full_view(self):
+        """A view of this context whose engine handles (points-to relation, roles, explorer) cover the whole library;
+        findings, obligations and notes go to this context."""
+        _ = self.pta
+        if not getattr(self, 'restore_only_skipped', None):
+            return self
+        v = getattr(self, '_full_view', None)
+        if v is None:
+            v = self._full_view = _FullView(self)
+        return v
 
     def explorer(self, raw: bool = False, **kw):
         from .paths import Explorer
@@ -174,6 +228,82 @@ class Ctx:
 
     def key_for(self, rule: str, f: FuncInfo, node) -> str:
         return f'{rule}::{f.module.relpath}::{f.short}::{norm_stmt(node)}'
+
+
+class _FullView:
+    """Proxy of a Ctx: same ledger, engine handles over the whole library (see Ctx.full_view)."""
+
+    def __init__(self, ctx: 'Ctx'):
+        object.__setattr__(self, '_ctx', ctx)
+        object.__setattr__(self, '_own', {})
+
+    @property
+    def pta(self):
+        return self._ctx.full_pta
+
+    def explorer(self, raw: bool = False, **kw):
+        # Ctx.explorer reads self.pta / roles through `self`: run it with this view as self
+        return Ctx.explorer(self, raw=raw, **kw)
+
+    def __getattr__(self, name):
+        own = object.__getattribute__(self, '_own')
+        if name in own:
+            return own[name]
+        if name in ('_roles', '_evo', '_lazy_caches', '_all_cold_fields', '_cold_owner', '_cold_invalidators',
+                    '_init_eq', '_coef_defs'):
+            raise AttributeError(name)          # engine caches are per view
+        return getattr(object.__getattribute__(self, '_ctx'), name)
+
+    def __setattr__(self, name, value):
+        if name in ('_roles', '_evo', '_lazy_caches', '_all_cold_fields', '_cold_owner', '_cold_invalidators',
+                    '_init_eq', '_coef_defs'):
+            object.__getattribute__(self, '_own')[name] = value
+        else:
+            setattr(object.__getattribute__(self, '_ctx'), name, value)
+
+
+def run_rules(mod, ctx: 'Ctx') -> Optional[AnalysisError]:
+    """Run a property module's rules with every top-level rule isolated: a rule that cannot analyse the tree
+    (AnalysisError) is recorded and the remaining rules still run, so that a violation an independent rule can see
+    is not lost behind another rule's "could not decide".  Returns the first AnalysisError (None if there was none);
+    the caller reports exit 1 when violations were found and exit 2 otherwise."""
+    import importlib
+    import pkgutil
+    import re
+    import sys
+    from . import rules as rules_pkg
+    pat = re.compile(r'^(r\d\d_|r_link|rule_|restore_)')
+    state = {'depth': 0, 'errors': []}
+    patched = []
+    for mi in pkgutil.iter_modules(rules_pkg.__path__):
+        m = importlib.import_module(f'{rules_pkg.__name__}.{mi.name}')
+        for name, fn in list(vars(m).items()):
+            if not (callable(fn) and pat.match(name) and getattr(fn, '__module__', None) == m.__name__):
+                continue
+
+            def wrapper(*a, __fn=fn, **kw):
+                if state['depth'] > 0:
+                    return __fn(*a, **kw)
+                state['depth'] += 1
+                try:
+                    return __fn(*a, **kw)
+                except AnalysisError as e:
+                    state['errors'].append(e)
+                    ctx.note(f'ANALYSIS-ERROR in {__fn.__name__}: {e} (the other rules were still run)')
+                    return None
+                finally:
+                    state['depth'] -= 1
+            patched.append((m, name, fn))
+            setattr(m, name, wrapper)
+    try:
+        try:
+            mod.check(ctx)
+        except AnalysisError as e:
+            state['errors'].append(e)
+    finally:
+        for m, name, fn in patched:
+            setattr(m, name, fn)
+    return state['errors'][0] if state['errors'] else None
 
 
 def load_known() -> dict:
